@@ -186,6 +186,10 @@ def correspond_tables(ctx, cases):
                               ('deduce', len(ls) >= 2, info)))
         else:
             d = _layout(elem.elem, dim3)
+            ctx.hist('vector component count vs spatial dimension', 'n=d' if elem.dim == m.dim() else 'n!=d')
+            if whole != [elem.dim * x for x in d]:
+                ctx.fail(f'vector-layout:{spec}', 'ElementVector: per-entity DOF counts are not (number of components) x (counts of the scalar element)',
+                         dict(info, counts=whole, scalar_counts=d, components=int(elem.dim)))
             for n in range(elem.dim):
                 cases.append((f'(CSplitV {gs} {cn} {cnats(d)} {cnat(elem.dim)} {cnat(n)})', f'(ONats {cnats(ix[n].tolist())})',
                               ('splitv', elem.dim >= 2, info)))
